@@ -413,6 +413,48 @@ var scenarios = map[string]func(t *testing.T, rep *Report, root string){
 		w.quiet()
 		w.S.StopAll()
 	},
+	// S24: AddServer(leader itself, non-voting): the leader demotes itself, keeps leading, and keeps counting
+	// itself ("matches := 1") when it decides what is committed
+	"S24-leader-demotes-itself": func(t *testing.T, rep *Report, root string) {
+		w := newWorld(t, rep, "S24-leader-demotes-itself", root, SimOpts{}, []uint64{1, 2, 3})
+		w.prof = "churn"
+		L := w.waitLeader(3 * time.Second)
+		A, B := w.others(L)[0], w.others(L)[1]
+		w.submit("rep", L, 0, false)
+		w.auto(300*time.Millisecond, nil, nil)
+		w.submit("add", L, L, false)
+		d := w.lastOp()
+		w.auto(2*time.Second, nil, func() bool { return w.opDone(d) })
+		w.auto(300*time.Millisecond, nil, nil)
+		cfg := w.S.Nodes[L].R.Configuration()
+		st := w.S.Nodes[L].R.Status()
+		if cfg.IsVoter[ID(L)] || st.State != raft.Leader {
+			rep.Notes = append(rep.Notes, fmt.Sprintf("S24: the demotion was refused or the leader stepped down (voter=%v state=%v err=%q): nothing to observe", cfg.IsVoter[ID(L)], st.State, d.Err))
+			w.S.StopAll()
+			return
+		}
+		rep.Hit("S24:non-voting-leader")
+		// B is cut off: of the two voters only A can store what the non-voting leader appends
+		w.S.Sever(L, B)
+		w.S.Sever(A, B)
+		w.submit("rep", L, 0, false)
+		x := w.lastOp()
+		w.auto(2*time.Second, nil, func() bool { return w.opDone(x) })
+		if w.opDone(x) && x.Err == "" {
+			holders := 0
+			for _, v := range []uint64{A, B} {
+				if e := w.S.Nodes[v].LogOf().Get(x.Index); e != nil {
+					holders++
+				}
+			}
+			if holders < 2 {
+				w.violate("C09", "a non-voting member counted toward commitment: an operation was acknowledged while stored on no majority of the voters",
+					fmt.Sprintf("leader %d demoted itself to non-voter and kept leading; voters are %d and %d; operation at index %d acknowledged with %d of 2 voters holding it", L, A, B, x.Index, holders),
+					map[string]string{"oracle": "non-voter-counts-for-commit", "pattern": "leader-demoted-itself"})
+			}
+		}
+		w.S.StopAll()
+	},
 	// S3: two removals back to back: the second is built from the un-updated configuration
 	"S3-lost-removal": func(t *testing.T, rep *Report, root string) {
 		w := newWorld(t, rep, "S3-lost-removal", root, SimOpts{}, []uint64{1, 2, 3, 4, 5})
